@@ -340,6 +340,17 @@ def check_style(sh, lab, fg, bg, attrs):
         judge("per-call-tagged", f3.format("pre<u>MID</u>post", style=lab.style(None, fg, bg, attrs)), [("pre", want), ("MID", {4}), ("post", want)])
         # a per-call style must not leak into the next call
         judge("after-per-call", f3.format("pre<b>B</b>"), [("pre", set()), ("B", {1})])
+        # tags are matched without regard to case: a style registered as "Warn" answers to <Warn>, <warn> and <WARN>
+        if fg == bg or not attrs:
+            f5 = lab.AnsiFormatter(lab.StyleSet([lab.style("Warn", fg, bg, attrs)]), True)
+            judge("mixed-case-tag", f5.format("<Warn>XY</Warn>"), [("XY", want)])
+            f6 = lab.AnsiFormatter(forced=True)
+            f6.add_style(lab.style("Warn", fg, bg, attrs))
+            judge("mixed-case-tag", f6.format("<warn>XY</warn>"), [("XY", want)])
+            p5 = lab.PlainFormatter(lab.StyleSet([lab.style("Warn", fg, bg, attrs)]))
+            sh.count("style_renderings")
+            if p5.format("<Warn>XY</Warn>") != "XY":
+                sh.violate("undecorated-output", dict(spec, route="mixed-case-tag"), "plain formatter shows the markup of the registered style 'Warn': %r" % p5.format("<Warn>XY</Warn>"))
         # a subclass that answers the attribute hooks itself (the converter must ask the hooks), for the first attribute set
         if attrs and fg == bg:
             base = lab.Style
